@@ -39,6 +39,11 @@ pub enum Op {
     /// stand-in link list with the same conn_ids and labels, and the world's own tracker); for the model: one
     /// ORemoveConn per dropped uplink, lowest index first
     Reload(u32),
+    /// a data packet with number s through the REAL handle_srt_packet while uplink g is stall-gated with its 1-in-100
+    /// duplicate probe due (stage 1), then the routed link's queue is drained by the real take_batch (stage 2), then
+    /// the probe's (stage 3).  For the model: OTrack h s t (h = the link the scheduler chose), ORegister h s t,
+    /// ORegister g s t — a probe is registered where it is sent but never tracked.  (g, s, now, stages to run)
+    Routed(usize, i64, u64, u8),
 }
 
 pub fn op_lit(o: &Op) -> String {
@@ -62,6 +67,7 @@ pub fn op_lit(o: &Op) -> String {
         Op::SetWindow(i, w) => format!("OSetWindow {} {}", i, z(*w as i128)),
         Op::RemoveConn(i) => format!("ORemoveConn {}", i),
         Op::Reload(m) => format!("ORemoveConn {}", m.trailing_zeros()),                     // expanded by run_case
+        Op::Routed(g, s, t, _) => format!("ORegister {} {} {}", g, z(*s as i128), t),       // expanded by run_case
     }
 }
 
@@ -73,11 +79,13 @@ pub fn op_kind(o: &Op) -> &'static str {
         Op::CcAck(..) => "cc_ack", Op::CcNak(..) => "cc_nak", Op::Global(..) => "global",
         Op::MarkRecovery(..) => "mark_recovery", Op::ResetReconnect(..) => "reset_reconnect",
         Op::Reg3(..) => "reg3", Op::SetConn(..) => "set_conn", Op::SetWindow(..) => "set_window",
-        Op::RemoveConn(..) => "remove_conn", Op::Reload(..) => "reload_dropping_uplinks",
+        Op::RemoveConn(..) => "remove_conn", Op::Reload(..) => "reload_dropping_uplinks", Op::Routed(..) => "routed_with_due_probe",
     }
 }
 
 pub struct World {
+    /// what the last `Routed` op saw: (link the scheduler chose, a copy was queued on the gated link)
+    pub last_routed: Option<(usize, bool)>,
     pub conns: SmallVec<SrtlaConnection, 4>,
     pub tracker: SequenceTracker,
     pub rt: tokio::runtime::Runtime,
@@ -95,12 +103,12 @@ impl World {
             conns.push(SrtlaConnection::new_registering(
                 conn_id_of(i), format!("l{}", i), IpAddr::V4(Ipv4Addr::new(127, 0, 0, 1 + i as u8)), 0));
         }
-        World { conns, tracker: SequenceTracker::new(), rt, sock }
+        World { last_routed: None, conns, tracker: SequenceTracker::new(), rt, sock }
     }
 
     fn events(&mut self, idx: usize, classic: bool, now: u64, inc: SrtlaIncoming) {
         srtla_core::utils::verif_clock::set(Some(now));
-        let World { conns, tracker, rt, sock } = self;
+        let World { conns, tracker, rt, sock, .. } = self;
         let _ = rt.block_on(process_connection_events(idx, conns, None, sock, tracker, classic, inc));
     }
 
@@ -184,6 +192,39 @@ impl World {
             Op::SetConn(i, b, lr) => { self.conns[i].connected = b; self.conns[i].last_received = lr; }
             Op::SetWindow(i, w) => self.conns[i].window = w as i32,
             Op::RemoveConn(i) => { let id = self.conns[i].conn_id; self.tracker.remove_connection(id) }
+            Op::Routed(g, s, t, stages) => {
+                use srtla_send::sender::ConnIoMap;
+                // uplink g: latch engaged (guard-private state only; nothing the core observation shows), probe due
+                let mut h = self.conns[g].verif_hidden();
+                h.stall_latched_since_ms = t.saturating_sub(100).max(1);
+                h.stall_recovery_since_ms = 0;
+                h.stall_probe_counter = 99;
+                self.conns[g].verif_set_hidden(h);
+                let q0: Vec<i32> = self.conns.iter().map(|c| c.batch_sender.queued_count()).collect();
+                let mut buf = [0u8; 1500];
+                buf[0..4].copy_from_slice(&((s as u32) & 0x7fff_ffff).to_be_bytes());
+                let io: ConnIoMap = Default::default();
+                let mut last_sel = None;
+                let mut client: Option<std::net::SocketAddr> = None;
+                let snap = srtla_send::ConfigSnapshot { stall_deselect: true, ..Default::default() };
+                let cw = srtla_core::priority::CriticalWindow::new();
+                let src: std::net::SocketAddr = "127.0.0.1:9".parse().unwrap();
+                srtla_core::utils::verif_clock::set(Some(t));
+                {
+                    let World { conns, tracker, rt, .. } = self;
+                    rt.block_on(srtla_send::sender::verif_hooks::handle_srt_packet(Ok((40, src)), &mut buf, conns, &io, &mut last_sel,
+                                tracker, &mut client, true, &snap, &cw));
+                }
+                let grew: Vec<bool> = self.conns.iter().zip(q0.iter()).map(|(c, q)| c.batch_sender.queued_count() > *q).collect();
+                self.last_routed = match last_sel { Some(i) if i < grew.len() && grew[i] && i != g => Some((i, grew[g])), _ => None };
+                if let Some((hsel, probe)) = self.last_routed {
+                    if stages >= 2 { let _ = self.conns[hsel].take_batch(t); }
+                    if stages >= 3 && probe { let _ = self.conns[g].take_batch(t); }
+                } else {
+                    // not the situation this op is about (no healthy alternative / g chosen): put the queues back
+                    for c in self.conns.iter_mut() { let _ = c.batch_sender.drain(t); }
+                }
+            }
             Op::Reload(mask) => {
                 use srtla_send::sender::{ConnIoMap, apply_connection_changes};
                 let host = "h"; let port = 9u16;
@@ -271,6 +312,9 @@ pub fn run_case(n: usize, ops: &[Op]) -> (String, bool) {
     let init = w.obs();
     let mut steps = Vec::with_capacity(ops.len());
     let mut panicked = false;
+    // ops that turned out not to apply (a `Routed` whose situation did not arise) are skipped on the main world AND in
+    // every prefix replay, so that a replay passes through exactly the states the main run passed through
+    let mut skipped: Vec<usize> = vec![];
     for (pos, o) in ops.iter().enumerate() {
         if let Op::NakRun(s, k, now) = *o {
             // A multi-entry NAK list is ONE call of the real event fan-out.  The observation after
@@ -280,7 +324,7 @@ pub fn run_case(n: usize, ops: &[Op]) -> (String, bool) {
             for j in 1..k {
                 let mut w2 = World::new(n);
                 let r = std::panic::catch_unwind(std::panic::AssertUnwindSafe(|| {
-                    for p in &ops[..pos] { w2.apply(p); }
+                    for (q, p) in ops[..pos].iter().enumerate() { if !skipped.contains(&q) { w2.apply(p); } }
                     w2.apply(&Op::NakRun(s, j, now));
                 }));
                 if r.is_err() { panicked = true; break; }
@@ -295,6 +339,7 @@ pub fn run_case(n: usize, ops: &[Op]) -> (String, bool) {
         // Multi-item calls of a real outer function (a flushed batch = k registrations, an SRTLA ACK list = k
         // entries): like NakRun, the observation after the first j items comes from a second execution of the same
         // history whose call is cut after j items; the last one is the full call on the main world.
+        let mut skip_apply = false;
         let items: Option<Vec<(Op, Op)>> = match *o {       // (cut call up to and including this item, the model's op)
             Op::Batch(i, s0, k, mask, t) => {
                 let mut v = vec![]; let mut d = 0i64;
@@ -303,6 +348,20 @@ pub fn run_case(n: usize, ops: &[Op]) -> (String, bool) {
             }
             Op::SrtlaAckRun(idx, s, k, c, t) =>
                 Some((1..=k).map(|j| (Op::SrtlaAckRun(idx, s, j, c, t), Op::SrtlaAck(idx, s + j as i64 - 1, c, t))).collect()),
+            Op::Routed(g, s, t, _) => {
+                // which link the scheduler chooses is only known by running stage 1 (on a replay of the history)
+                let mut w2 = World::new(n);
+                let r = std::panic::catch_unwind(std::panic::AssertUnwindSafe(|| {
+                    for (q, p) in ops[..pos].iter().enumerate() { if !skipped.contains(&q) { w2.apply(p); } }
+                    w2.apply(&Op::Routed(g, s, t, 1));
+                }));
+                match (r.is_ok(), w2.last_routed) {
+                    (true, Some((h, true))) => Some(vec![(Op::Routed(g, s, t, 1), Op::Track(h, s, t)), (Op::Routed(g, s, t, 2), Op::Register(h, s, t)),
+                                                         (Op::Routed(g, s, t, 3), Op::Register(g, s, t))]),
+                    (true, _) => { skip_apply = true; skipped.push(pos); Some(vec![]) }
+                    (false, _) => None,      // a panic: let the ordinary path record it
+                }
+            }
             Op::Reload(mask) => {
                 // cut after the j lowest dropped uplinks = a reload that drops only those
                 let mut v = vec![]; let mut m = 0u32;
@@ -317,7 +376,7 @@ pub fn run_case(n: usize, ops: &[Op]) -> (String, bool) {
                 if q + 1 < m {
                     let mut w2 = World::new(n);
                     let r = std::panic::catch_unwind(std::panic::AssertUnwindSafe(|| {
-                        for p in &ops[..pos] { w2.apply(p); }
+                        for (q, p) in ops[..pos].iter().enumerate() { if !skipped.contains(&q) { w2.apply(p); } }
                         w2.apply(cut);
                     }));
                     if r.is_err() { panicked = true; break; }
@@ -329,7 +388,7 @@ pub fn run_case(n: usize, ops: &[Op]) -> (String, bool) {
                 }
             }
             if panicked { steps.push(format!("({},[])", op_lit(o))); break; }
-            if m == 0 { let _ = std::panic::catch_unwind(std::panic::AssertUnwindSafe(|| w.apply(o))); }
+            if m == 0 && !skip_apply { let _ = std::panic::catch_unwind(std::panic::AssertUnwindSafe(|| w.apply(o))); }
             continue;
         }
         let r = std::panic::catch_unwind(std::panic::AssertUnwindSafe(|| w.apply(o)));
@@ -596,7 +655,22 @@ pub fn gen_ops(rng: &mut Rng, profile: Profile, n: usize, len: usize) -> Vec<Op>
                         ops.push(Op::NakRun(s0, k as u32, t3));
                     }
                 }
-                else if r < 80 { let i = g.link(); ops.push(Op::RemoveConn(i)); }
+                else if r < 79 { let i = g.link(); ops.push(Op::RemoveConn(i)); }
+                else if r < 80 && g.n >= 2 {
+                    // a routed packet whose duplicate probe is due on a stall-gated uplink, through the real
+                    // handle_srt_packet; every uplink heard from just now so that a healthy alternative exists; then NAKed
+                    let t = g.tick(false);
+                    for l in 0..g.n { ops.push(Op::SetConn(l, true, Some(t))); }
+                    let gl = g.link(); let s = g.fresh_seq();
+                    if s >= 0 && s < (1i64 << 31) {
+                        ops.push(Op::Routed(gl, s, t, 3));
+                        for l in 0..g.n { g.sent[l].push(s); }
+                        let t2 = t + g.rng.below(3000);
+                        g.now = t2;
+                        ops.push(Op::Nak(s, t2));
+                        if g.rng.chance(1, 2) { ops.push(Op::Nak(s, t2 + 1)); }
+                    }
+                }
                 else if r < 82 {
                     // a reload dropping 1 .. n-1 uplinks at once (the survivors keep what the tracker knows of them)
                     let mut m = (g.rng.below(1 << g.n) as u32) & ((1u32 << g.n) - 1);
